@@ -205,11 +205,9 @@ impl Story {
         if missing_externals.is_empty() {
             self.has_validated_externals = true;
         } else {
-            let join: String = missing_externals
-                .iter()
-                .cloned()
-                .collect::<Vec<String>>()
-                .join(", ");
+            let mut names = missing_externals.iter().cloned().collect::<Vec<String>>();
+            names.sort();
+            let join: String = names.join(", ");
             let message = format!(
                 "ERROR: Missing function binding for external{}: '{}' {}",
                 if missing_externals.len() > 1 { "s" } else { "" },
